@@ -163,6 +163,7 @@ func runCfg(ci int, cfg obs.Cfg, job *Job) Result {
 	res := Result{Cfg: cfg, ID: cfg.ID(), Outcomes: map[string]int{}}
 	vsched.StepHook = hookFor(cfg)
 	fails := map[string]Failure{}
+	nfail := 0
 	var logged, loggedPart [][]int // complete schedules first, then prefixes abandoned at a visited state
 	ex := vsched.NewExplorer(job.POR, job.MaxSteps)
 	rng := rand.New(rand.NewSource(job.Seed + int64(ci)*7919))
@@ -195,6 +196,12 @@ func runCfg(ci int, cfg obs.Cfg, job *Job) Result {
 			f := Failure{Class: class, Detail: detail, Choices: r.Choices, Keys: r.Keys}
 			if old, ok := fails[class]; !ok || better(f, old) {
 				fails[class] = f
+			}
+			nfail++
+			// a run that does not end can not be cached (its history keeps growing): the
+			// configuration has its verdict, give up the rest of its space
+			if r.Outcome == "steplimit" || nfail > 2000 {
+				break
 			}
 		}
 		if r.Outcome == "done" && len(logged) < job.LogRuns {
